@@ -1,5 +1,6 @@
 from __future__ import annotations
 
+import operator
 import weakref
 from _weakref import ref as weakref_ref
 from abc import ABC, abstractmethod
@@ -241,16 +242,24 @@ class MonitoredList(MonitoredContainer, list):
             # the assigned iterable may be a one-shot one: it is recorded and stored from the same materialised values
             value = list(value)
             start, stop, step = idx.indices(len(self))
-            if step != 1 and len(value) != len(range(start, stop, step)):
-                # what the list itself would say, before anything is recorded
-                raise ValueError(
-                    f"attempt to assign sequence of size {len(value)} to extended slice of size "
-                    f"{len(range(start, stop, step))}"
-                )
-            if step < 0 and stop < 0:
-                stop = None  # down to and including the first element
+            if step != 1:
+                positions = range(start, stop, step)
+                if len(value) != len(positions):
+                    # what the list itself would say, before anything is recorded
+                    raise ValueError(
+                        f"attempt to assign sequence of size {len(value)} to extended slice of size "
+                        f"{len(positions)}"
+                    )
+                # position by position: the bounds that slice.indices() gives for a negative step (-1 for "before the
+                # first element") do not mean the same when they are written into a slice again
+                with self._written_values_first():
+                    for position, item in zip(positions, value):
+                        super().__setitem__(position, self._on_add(item))
+                return
             idx = slice(start, stop, step)
         else:
+            # what the list itself would say, before anything is recorded (a position that is not an integer)
+            idx = operator.index(idx)
             if idx < 0:
                 idx += len(self)
             if not 0 <= idx < len(self):
@@ -261,6 +270,7 @@ class MonitoredList(MonitoredContainer, list):
             super().__setitem__(idx, value)
 
     def insert(self, idx, item):
+        idx = operator.index(idx)
         if idx < 0:
             # resolved now: recording the item can append inferred values to this list
             idx = max(0, len(self) + idx)
@@ -299,9 +309,24 @@ class MonitoredSet(MonitoredContainer, set):
         self.update(values)
         return self
 
+    def symmetric_difference_update(self, values):
+        # the values that are not in the set yet become part of it: they are recorded like any added value
+        values = list(set(values))
+        for value in values:
+            if value in self:
+                super().discard(value)
+            else:
+                self._add_item(value)
+
+    def __ixor__(self, values):
+        self.symmetric_difference_update(values)
+        return self
+
     def _add_item(
         self, value, inferred: bool = False, add_relation_to_the_graph: bool = True
     ):
+        # what the set itself would say, before anything is recorded
+        hash(value)
         value = self._on_add(
             value,
             inferred=inferred,
